@@ -4,7 +4,7 @@ from facts import strip_generics, callee_of
 import sym
 import c07
 
-CONFIGS_QUICK = ["F_all"]
+CONFIGS_QUICK = ["F_all", "F_nool"]  # every configuration whose cfg-gated code the property depends on
 CONFIGS_THOROUGH = ["F_all", "F_nool"]
 TECHNIQUE = 'static analysis: who-may-grow rule and guard extraction for the skipped-event queue, checkpoint/Drop pairing, replay-order call sequences, loop decision table of skip(), sequence-access table; compile-fail witness'
 EXPLANATION = (
@@ -186,12 +186,54 @@ def r4_skip_table(ctx):
         ctx.ob("R4", "skip:all-buffered", unsk == 0 and len(rows) >= 6, "every event of the skipped subtree goes through skip_event (rows %d)" % len(rows), config=cfg)
 
 
+def r6_read_to_end(ctx):
+    """Deserializer::read_to_end (overlapped lists): buffered events are dropped with a depth count of same-named
+    Start/End; when the buffer runs dry the reader skips one nesting level per round, and every round that does not
+    finish must lower the depth (otherwise the loop reads past the element until Eof)."""
+    for cfg, F in ctx.facts.items():
+        if "overlapped-lists" not in F.features:
+            ctx.ob("R6", "not-compiled", True, "feature off", config=cfg)
+            continue
+        b = ctx.body(F, "de::Deserializer::read_to_end", "R6")
+        if b is None:
+            continue
+        vs = F.variants("de::DeEvent")
+        rows = {}
+        for p in ctx.paths(b):
+            if ends(p) not in ("loop", "ret") or is_error_exit(p):
+                continue
+            popped = decision_on(p, lambda t: t[0] == "discr" and call_is(t[1], "pop_front"))
+            ev = decision_on(p, lambda t: t[0] == "discr" and t[1][0] == "pl" and call_is(t[1][1], "pop_front"))
+            same = None
+            for e in p:
+                if e[0] == "switch" and e[2][0] == "call" and name_is(e[2][2], "eq", "ne"):
+                    same = name_is(e[2][2], "eq") == (e[3] != 0)
+            d0 = decision_on(p, lambda t: t[0] == "bin" and t[1] == "Eq" and strip_wrappers(t[2])[0] == "phi" and strip_wrappers(t[2])[3] == "depth" and strip_wrappers(t[3]) == ("c", strip_wrappers(t[3])[1], 0))
+            if ends(p) == "loop":
+                dv = p[-1][2].get("depth")
+                out = "same" if dv is None or dv[0] == "phi" else ("depth+1" if dv[0] == "bin" and dv[1] == "Add" and strip_wrappers(dv[3])[2] == 1 else "depth-1" if dv[0] == "bin" and dv[1] == "Sub" and strip_wrappers(dv[3])[2] == 1 else "?")
+            else:
+                out = "stop"
+            skipped = any(name_is(c[2], "XmlReader::read_to_end", "read_to_end") and not isinstance(c[1], tuple) for c in calls(p))
+            src = "reader" if popped == 0 else (vs[ev] if isinstance(ev, int) and ev < len(vs) else "other")
+            rows.setdefault((src, same, None if d0 is None else d0 != 0), set()).add((out, skipped))
+        want = {("reader", None, True): {("stop", True)}, ("reader", None, False): {("depth-1", True)},
+                ("Start", True, None): {("depth+1", False)}, ("Start", False, None): {("same", False)},
+                ("End", True, True): {("stop", False)}, ("End", True, False): {("depth-1", False)}, ("End", False, None): {("same", False)},
+                ("other", None, None): {("same", False)}}
+        for k, w in want.items():
+            ctx.ob("R6", "read_to_end:row%s" % list(k), rows.get(k) == w, "source %s (same name %s, depth==0 %s) must %s; extracted %s" % (k[0], k[1], k[2], sorted(w), sorted(rows.get(k, []))), config=cfg)
+        extra = sorted(k for k in rows if k not in want)
+        ctx.ob("R6", "read_to_end:no-other-rows", not extra, "no other outcome: %s" % extra, config=cfg)
+
+
 def r5_seq_table(ctx):
     for cfg, F in ctx.facts.items():
         bs = F.bodies_with("de::map::MapValueSeqAccess", "SeqAccess", end="next_element_seed")
         ctx.ob("R5", "next_element_seed:anchor", len(bs) == 1, "found", config=cfg)
         for b in bs:
             rows = {}
+            suited = {}
             for p in ctx.paths(b, max_paths=60000):
                 pk = decision_on(p, c07.is_peek_discr)
                 if not isinstance(pk, int):
@@ -211,6 +253,8 @@ def r5_seq_table(ctx):
                 else:
                     continue
                 rows.setdefault(var, set()).add((out, tuple(cs)))
+                if var == "Start" and suit is not None:
+                    suited.setdefault(suit != 0, set()).add(out)
             feat = "overlapped-lists" in F.features
             e = rows.get("End", set())
             ctx.ob("R5", "seq[End]", e == {("None", ())}, "an End event ends the list without being consumed: %s" % sorted(e), config=cfg)
@@ -226,9 +270,11 @@ def r5_seq_table(ctx):
                 ctx.ob("R5", "seq[Start]", bool(skipped) and all(o == "continue" for o, c in skipped) and not ended and bool(items), "with overlapped lists a non-matching element is skipped (buffered) and the search continues; a matching one is consumed: %s" % sorted(e), config=cfg)
             else:
                 ctx.ob("R5", "seq[Start]", not skipped and bool(ended) and bool(items), "without the feature a non-matching element ends the list: %s" % sorted(e), config=cfg)
+            ctx.ob("R5", "seq[Start]:filter-polarity", suited.get(True, set()) - {"Err"} == {"item"} and "item" not in suited.get(False, {"?"}) and bool(suited.get(False)),
+                   "an element is deserialized as an item exactly when the filter says it is suitable; otherwise it is skipped (overlapped lists) or ends the list: suitable -> %s, not suitable -> %s" % (sorted(suited.get(True, [])), sorted(suited.get(False, []))), config=cfg)
 
 
-RULES = [("R1", r1_limit), ("R2", r2_pairing), ("R3", r3_replay_order), ("R4", r4_skip_table), ("R5", r5_seq_table)]
+RULES = [("R1", r1_limit), ("R2", r2_pairing), ("R3", r3_replay_order), ("R4", r4_skip_table), ("R5", r5_seq_table), ("R6", r6_read_to_end)]
 
 
 def THOROUGH_EXTRA(ctx):
